@@ -983,6 +983,33 @@ func runC18(r *Run) {
 			r.OK("R14", "block-readers#recorded-hash-unread", "", "no function under indexer/ reads MsgEthereumTx.Hash")
 		}
 	}
+	r.Rule("R15", "FLOW.intrinsic-gas-of-the-transaction-itself: the admission check (keeper.VerifyFee) computes the intrinsic gas of the unwrapped transaction with go-ethereum's IntrinsicGas, whose access-list argument derives from the transaction's own GetAccessList() and is not decided by a branch on the transaction's type — the three types are treated alike: a dynamic-fee transaction's list costs 2400 per address and 1900 per key exactly like an access-list transaction's; dropping it admits a transaction that always fails at delivery after its fee is charged")
+	if vf, ok := P.FnOK("x/evm/keeper.VerifyFee"); ok {
+		n := 0
+		eachCall(vf, func(ci CallInfo) {
+			if ci.Name != "IntrinsicGas" || len(ci.Instr.Common().Args) < 2 {
+				return
+			}
+			n++
+			al := ci.Instr.Common().Args[1]
+			fromTx := backSlice(al).HasCall(func(g CallInfo) bool { return g.Name == "GetAccessList" })
+			byType := ""
+			for _, b := range vf.Blocks {
+				ifi, isIf := lastIf(b)
+				if !isIf {
+					continue
+				}
+				if backSlice(ifi.Cond).HasCall(func(g CallInfo) bool { return g.Name == "TxType" }) && dominates(b, ci.Instr.Block()) {
+					byType = P.Pos(ifi.Pos())
+				}
+			}
+			r.Check(fromTx && byType == "", "R15", fmt.Sprintf("%s#IntrinsicGas-%d-takes-the-transaction's-access-list", fnID(vf), n), P.Pos(instrPos(ci.Instr)), "access list from GetAccessList(), not decided by TxType()",
+				"VerifyFee hands IntrinsicGas an access list that depends on the transaction's type (branch at "+byType+"): a dynamic-fee transaction with an access list and gas limit 31567 is admitted although the intrinsic gas of the original transaction is 31568 — it is charged and fails at delivery, while the same transaction as access-list type is refused up front")
+		})
+		r.Floor("R15", "IntrinsicGas calls in VerifyFee", n, 1)
+	} else {
+		r.Bad("R15", "anchor/x/evm/keeper.VerifyFee", "", "not found")
+	}
 	r.Rule("R11", "PATH.wire-integers-bounded-before-storing + nil-base-fee: (a) the constructors that wrap a typed Ethereum transaction (newAccessListTx, NewDynamicFeeTx) store the chain id with SetSignatureValues, which converts with the panicking NewIntFromBigInt — the call is reachable only after an error-checked SafeNewIntFromBigInt / IsValidInt256 of a value derived from tx.ChainId(), as for every amount field: a chain id above 256 bits must be an error like for a legacy transaction, not a panic; (b) DynamicFeeTx.EffectiveGasPrice reaches the arithmetic helper only over the edge on which the base fee is not nil — without a base fee (London inactive) go-ethereum prices the transaction at its fee cap, the helper dereferences the nil and the minimum-gas-price decorator panics on every dynamic-fee transaction")
 	for _, id := range []string{evmTypes + ".newAccessListTx", evmTypes + ".NewDynamicFeeTx"} {
 		fn, ok := P.FnOK(id)
